@@ -48,9 +48,10 @@ func main() {
 			"U1 (closure reads a parameter of a returned activation) and U2 (partial application of a variadic function) disagreements are reported as unsettled outcomes, not violations",
 		},
 		CaseTimeout: 120e9,
-		// sized for about 25 s (quick) / 7 min (thorough) on 16 idle cores; the deadlines leave room for a loaded machine
-		QuickDeadline:    4 * 60e9,
-		ThoroughDeadline: 25 * 60e9,
+		// sized for about 25 s (quick) / 4-5 min (thorough, about 60 CPU-minutes) on 16 idle cores; the deadlines
+		// leave room for a machine shared with other checks
+		QuickDeadline:    5 * 60e9,
+		ThoroughDeadline: 45 * 60e9,
 		WorkerEnv:        []string{"GOMAXPROCS=2", "GOGC=300"},
 		Build:            build,
 	})
